@@ -92,6 +92,8 @@ class Kernel:
         self.line_hook = None  # optional callable(rec, frame) for at(k) sweeps / probes
         self.max_threads = 1
         self.thread_excs = []
+        self.stalls = 0
+        self.stall_ticks = 0
         self.late = 1  # ticks by which every timed wait overshoots its deadline
         pk = self.policy.get("kind")
         if pk == "pct":
@@ -405,6 +407,20 @@ class Kernel:
                 self._pct_points.pop(0)
                 self._pct_low -= 1.0
                 cur.prio = self._pct_low
+            if len(self.threads) > 1 and pol.get("stall"):
+                # 'slow thread' fault: every now and then the running thread is held up for a short virtual time
+                # between two lines, whether or not another thread is ready.  Pure function of (stall seed, step index).
+                h = (self.steps * 2654435761 + int(pol.get("stall_seed", 0)) * 40503) & 0xFFFFFFFF
+                if (h >> 4) % int(pol["stall"]) == 0:
+                    self.stalls += 1
+                    d = 1 + (h >> 12) % int(pol.get("stall_max", 2048))
+                    self.stall_ticks += d
+                    cur.state = BLOCKED
+                    cur.pred = None
+                    cur.deadline = self.now + d
+                    cur.blocked_on = "stalled"
+                    self._reschedule(False, "line")
+                    return self._local_trace
             if len(self.threads) > 1:
                 if kind == "at" and pol.get("tid") == cur.tid and cur.lines == pol.get("k"):
                     self._forced_switch()
